@@ -651,6 +651,11 @@ func loadBasicSegment(sloc *SegmentLoc) (Segment, error) {
 		}
 
 		buf = sloc.mref.buf[bufStart : bufStart+sloc.BufBytes]
+	} else {
+		// A segment whose only entries have an empty key and an empty
+		// value has no buf bytes; buf must still be non-nil so that
+		// those entries are found and read back as empty, not nil.
+		buf = []byte{}
 	}
 
 	return &segment{
